@@ -19,8 +19,12 @@ Ev == Traces[tid].ev[l]
 A  == Ev.a
 Step == A.n = "merge" /\ (Merge(A.t, A.o) \/ MergeRefused(A.t, A.o))
 \* at a refusal the recorder does not look at `other` (the statement speaks about the target): its entry is the pre-state one
-ObsMatch == \/ Obs'.libs = Ev.post.libs /\ err' = Ev.post.err
-            \/ /\ ~(Obs'.libs = Ev.post.libs /\ err' = Ev.post.err)
+\* the outcome is compared as accepted / refused: which refusal class the code raises is logged (post.cls), not compared
+\* every observed value is an integer, a sequence of integers or the boolean `alive` (diagnostics of the projection are
+\* negative integers), so the comparison below never meets values of different types
+Same == Obs'.libs = Ev.post.libs /\ ((err' = "") <=> (Ev.post.err = ""))
+ObsMatch == \/ Same
+            \/ /\ ~Same
                /\ PrintT(ToJson([mismatch |-> Traces[tid].id, at |-> l, expected |-> [libs |-> Obs'.libs, err |-> err']]))
                /\ FALSE
 TNext == /\ l <= Len(Traces[tid].ev) /\ l' = l + 1 /\ tid' = tid
